@@ -81,3 +81,44 @@ package middleware
 //@     || (called(validateSession) && ret(validateSession) == nil && arg(validateSession, 2) == session)
 //@ ensures[reload-failure-is-error] called(Load) && (ret1(Load) != nil || ret0(Load) == nil) ==> ret0 != nil
 //@ ensures[validation-follows-refresh-attempt] called(refreshSession) ==> called(validateSession) && ret0 == ret(validateSession)
+
+// ------------------------------------------------------------------ C07: strip, then inject, then forward
+//@ func stripHeaders$1
+//@ prop C07
+//@ loop 0 invariant[earlier-names-absent] rangeindex >= -1 && forall j int :: 0 <= j && j <= rangeindex ==> mapget(req.Header.hdr, canon(headers[j])) == ""
+//@ at call ServeHTTP assert[every-configured-name-is-absent-whatever-the-client-sent] forall j int :: 0 <= j && j < len(headers) ==>
+//@     mapget(req.Header.hdr, canon(headers[j])) == ""
+//@ ensures[next-always-called] called(ServeHTTP)
+
+//@ func injectRequestHeaders$1
+//@ prop C07
+//@ at call Inject assert[request-headers-from-the-scope-session] arg(Inject, 0) == req.Header && arg(Inject, 1) == scope.Session
+//@     && scope == ret(GetRequestScope) && arg(GetRequestScope, 0) == req
+//@ at call ServeHTTP assert[forward-after-inject-and-flatten] called(Inject) && called(flattenHeaders) && arg(flattenHeaders, 0) == req.Header
+//@     && arg(ServeHTTP, 1) == req
+
+//@ func injectResponseHeaders$1
+//@ prop C07
+//@ at call Inject assert[response-headers-from-the-scope-session] arg(Inject, 0) == ret(Header#0) && recv(Header#0) == rw
+//@     && arg(Inject, 1) == scope.Session && scope == ret(GetRequestScope) && arg(GetRequestScope, 0) == req
+//@ at call ServeHTTP assert[forward-after-inject] called(Inject)
+
+//@ func NewRequestHeaderInjector
+//@ prop C07
+//@ at call alice.New assert[strip-before-inject] arg(alice.New, 0)[0] == ret(newStripHeaders) && arg(alice.New, 0)[1] == ret0(newRequestHeaderInjector)
+//@     && len(arg(alice.New, 0)) == 2
+//@ ensures[stripper-present-whenever-something-to-strip] ret1 == nil && ret(newStripHeaders) != nil ==> called(alice.New)
+
+//@ func newStripHeaders
+//@ safety
+//@ prop C07
+//@ loop 0 invariant[non-preserved-names-collected] rangeindex >= -1 && len(headersToStrip) >= 0
+//@     && (forall j int :: 0 <= j && j <= rangeindex && !headers[j].PreserveRequestValue ==>
+//@         exists k int :: 0 <= k && k < len(headersToStrip) && headersToStrip[k] == headers[j].Name)
+//@ ensures[nil-only-if-nothing-to-strip] result == nil ==> forall j int :: 0 <= j && j < len(headers) ==> headers[j].PreserveRequestValue
+//@ ensures[every-non-preserved-name-is-stripped] result != nil ==> forall j int :: 0 <= j && j < len(headers) && !headers[j].PreserveRequestValue ==>
+//@     exists k int :: 0 <= k && k < len(headersToStrip) && headersToStrip[k] == headers[j].Name
+
+//@ func newStripHeaders$1
+//@ prop C07
+//@ ensures[strips-the-collected-names] result == ret(stripHeaders) && arg(stripHeaders, 0) == headersToStrip && arg(stripHeaders, 1) == next
